@@ -125,3 +125,34 @@ Proof.
     assert (E : (max_mint r <? x) = false) by (unfold max_mint; lia).
     rewrite E. cbn [negb guard bind]. rewrite Hp. cbn [bind]. rewrite Hs'. cbn [bind]. eauto.
 Qed.
+
+(* ---------- what a successful operation needed (for the monitor's "nothing is created" clauses) ---------- *)
+Lemma deposit_pull c s au a r f o s' sh evs : deposit c s au a r f o = Ok (s', (sh, evs)) -> can_pull c s au a f o.
+Proof.
+  unfold deposit. intros H. bsplit H u E0. bsplit H u1 E1. bsplit H sh0 E2. bsplit H s0 E3.
+  apply (deposit_internal_needs _ _ _ _ _ _ _ _ _ E3).
+Qed.
+Lemma mint_pull c s au x r f o s' a evs : mint c s au x r f o = Ok (s', (a, evs)) -> can_pull c s au a f o.
+Proof.
+  unfold mint. intros H. bsplit H u E0. bsplit H u1 E1. bsplit H a0 E2. bsplit H s0 E3. inversion H; subst.
+  apply (deposit_internal_needs _ _ _ _ _ _ _ _ _ E3).
+Qed.
+Lemma withdraw_internal_spend c s r ow a sh o s' : withdraw_internal c s r ow a sh o = Ok s' ->
+  o <> ow -> 0 <= sh <= allowance (now s) (share s) ow o.
+Proof.
+  unfold withdraw_internal. intros H Hne. bsplit H s0 E0.
+  assert (E : N.eqb o ow = false) by (apply N.eqb_neq; exact Hne). rewrite E in E0. cbn [negb] in E0.
+  destruct (spend_allowance_ok _ _ _ _ _ _ _ E0) as (Hx & _). exact Hx.
+Qed.
+Lemma withdraw_spend c s au a r ow o s' sh evs : withdraw c s au a r ow o = Ok (s', (sh, evs)) ->
+  o <> ow -> 0 <= sh <= allowance (now s) (share s) ow o.
+Proof.
+  unfold withdraw. intros H. bsplit H u E0. bsplit H m E1. bsplit H u1 E2. bsplit H sh0 E3. bsplit H s0 E4.
+  inversion H; subst. apply (withdraw_internal_spend _ _ _ _ _ _ _ _ E4).
+Qed.
+Lemma redeem_spend c s au x r ow o s' a evs : redeem c s au x r ow o = Ok (s', (a, evs)) ->
+  o <> ow -> 0 <= x <= allowance (now s) (share s) ow o.
+Proof.
+  unfold redeem. intros H. bsplit H u E0. bsplit H u1 E2. bsplit H a0 E3. bsplit H s0 E4.
+  inversion H; subst. apply (withdraw_internal_spend _ _ _ _ _ _ _ _ E4).
+Qed.
